@@ -391,13 +391,32 @@ func ForceAt(n int, t *Thread) {
 
 // GoForced spawns a thread that is scheduled exactly at scheduling point n.
 func GoForced(name string, n int, f func()) {
+	GoForcedOrSkip(name, n, f)
+}
+
+// GoForcedOrSkip is GoForced returning a function that withdraws the thread: if scheduling point
+// n has not been reached when it is called (the execution turned out shorter), the thread ends
+// without running f. It reports whether f was skipped.
+func GoForcedOrSkip(name string, n int, f func()) (withdraw func() bool) {
 	s := S
-	reached := func() bool { return s.x.Steps >= n }
+	withdrawn, started := false, false
+	reached := func() bool { return withdrawn || s.x.Steps >= n }
 	GoNamed(name, func() {
 		Op("fault-point", 0, reached)
+		if withdrawn {
+			return
+		}
+		started = true
 		f()
 	})
 	ForceAt(n, s.threads[len(s.threads)-1])
+	return func() bool {
+		if started {
+			return false
+		}
+		withdrawn = true
+		return true
+	}
 }
 
 // Now returns the virtual time in nanoseconds since the start of the execution.
